@@ -27,7 +27,7 @@ ASSUMPTIONS = [
     "tracebacks and handler calls are optional",
 ]
 
-PROG = P.programs(multi=True, details=True, fixture=True, expect=True, onexc=True, cleanup_depth=2, p_raise=5)
+PROG = P.programs(multi=True, details=True, fixture=True, expect=True, onexc=True, cleanup_depth=2, p_raise=5, nonexc=True, texts=True)
 
 
 def run_case(prog):
@@ -77,14 +77,17 @@ def run_case(prog):
         if g["type"] == "traceback":
             # the traceback *of that exception*: its last line names the marker, and it is not the
             # traceback of a MultipleExceptions wrapper that merely quotes its constituents
-            last = [ln for ln in text.splitlines() if ln.strip()][-1:] or [""]
+            # (the part after the last indented frame / source line: the exception's own summary, possibly several lines)
+            lines = [ln for ln in text.split("\n") if ln.strip()]
+            k = max([i for i, ln in enumerate(lines) if ln.startswith("  ")] or [-1])
+            last = ["\n".join(lines[k + 1:])]
             return ct.subtype == "x-traceback" and ("MARK-%d-" % g["marker"]) in last[0] and "MultipleExceptions" not in last[0]
         if g["type"] == "traceback-xfail":
             return ct.subtype == "x-traceback" and "MismatchError" in text and "1 != 2" in text
         if g["type"] == "mismatch-detail":
             return text == g["marker"]
         if g["type"] == "fixture-detail":
-            return data.startswith(g["marker"].encode("utf8"))
+            return data == g["marker"].encode("utf8") + g["payload"] and (ct.type, ct.subtype) == ("application", "octet-stream")
         if g["type"] == "failed-expectation":
             return "MismatchError" in text and ("MARK-%d-" % g["marker"]) in text and n.startswith("Failed expectation")
         return False
@@ -106,13 +109,24 @@ def run_case(prog):
                             missing["type"], missing["marker"], {n: delivered[n][1][:40] for n in delivered},
                             [(g["type"], g["marker"]) for g in required])))
     # skip / expected-failure reason
+    texts = {a["i"]: a.get("text", "") for a in _walk(prog) if a["a"] == "raise"}
+    if out[0] in ("addExpectedFailure", "addUnexpectedSuccess"):
+        # expectFailure(reason, ...) records its reason
+        xs = [r for r in model.raised if r["kind"] in ("xfail", "uxsuccess", "xf_error", "xf_skip", "xf_kbi")]
+        rs = delivered.get("reason")
+        if xs and (rs is None or not any(("MARK-%d-" % r["i"]).encode() == rs[1] for r in xs)):
+            vs.append(V("reason", "expectFailure", "reason detail of %s is %r, expectFailure was called with markers %r" % (out[0], rs and rs[1], [r["i"] for r in xs])))
     if out[0] == "addSkip" and not model.skipped_by_decorator:
         skips = [r for r in model.raised if P.klass(r["kind"]) == "skip"]
         rs = delivered.get("reason")
-        if rs is None or not any((b"" if r["kind"] == "skip_empty" else ("MARK-%d-" % r["i"]).encode()) == rs[1] for r in skips):
+        def reason_of(r):
+            if r["kind"] in ("skip_empty", "skip_noargs", "skip_int"):
+                return {"skip_empty": b"", "skip_noargs": b"no reason given.", "skip_int": b"42"}[r["kind"]]
+            return ("MARK-%d-" % r["i"]).encode() + texts.get(r["i"], "").encode("utf8")
+        if rs is None or not any(reason_of(r) == rs[1] for r in skips):
             vs.append(V("reason", "skip", "skip reason detail is %r, raised skips %r" % (rs and rs[1], [r["i"] for r in skips])))
     # handlers
-    user_raises = [r for r in model.raised if r["kind"] not in ("forced", "setup_error")]
+    user_raises = [r for r in model.raised if r["kind"] not in ("forced", "setup_error", "upcall_error", "restore_error")]
     optional = len(model.raised) - len(user_raises)
     hids = []
     for a in _walk(prog):
@@ -122,13 +136,21 @@ def run_case(prog):
     out_index = next(i for i, e in enumerate(obs["shared"]) if e[0] in OUTCOMES)
     for j, h in enumerate(executed):
         want = sum(1 for r in user_raises if r["handlers"] > j)
-        lo, hi = want, want + sum(1 for r in model.raised if r["kind"] in ("forced", "setup_error") and r["handlers"] > j)
+        lo, hi = want, want + sum(1 for r in model.raised if r["kind"] in ("forced", "setup_error", "upcall_error", "restore_error") and r["handlers"] > j)
         calls = [c for c in obs["live"].handler_calls if c[0] == h]
         if not (lo <= len(calls) <= hi):
             vs.append(V("onException", "call-count", "handler registered %d-th was called %d times; %d exceptions were raised by user code after it was registered (kinds %r)" % (
                 j, len(calls), want, [r["kind"] for r in user_raises])))
         if any(c[2] is not None and c[2] > out_index for c in calls):
             vs.append(V("onException", "after-outcome", "a handler was called after the outcome had been reported"))
+        # ... and with the exceptions that were raised (those whose message carries a marker)
+        plain = P.FAILURE_KINDS + P.ERROR_KINDS + P.SKIP_KINDS + P.NONEXC_KINDS
+        universe = {r["i"] for r in model.raised if r["kind"] in plain and r["kind"] not in P.UNMARKED and r["i"] is not None}
+        want_m = sorted(r["i"] for r in user_raises if r["handlers"] > j and r["i"] in universe)
+        got_m = sorted(c[1] for c in calls if isinstance(c[1], int) and c[1] in universe)
+        extra = [m for m in got_m if m not in want_m]
+        if lo <= len(calls) <= hi and (extra or any(got_m.count(m) < want_m.count(m) for m in set(want_m))) and not vs:
+            vs.append(V("onException", "wrong-exception", "handler registered %d-th was handed exceptions with markers %r, raised after its registration: %r" % (j, got_m, want_m)))
     # a handler registered on the instance from outside keeps being called when the instance is run again
     if prog.get("outside_handler") and not vs:
         first = len([c for c in obs["live"].handler_calls if c[0] == 0])
